@@ -1,6 +1,7 @@
 package c16
 
 import (
+	"google.golang.org/protobuf/types/dynamicpb"
 	"math/big"
 	"fmt"
 	"math"
@@ -241,6 +242,18 @@ func TestDefaultEqual(t *testing.T) {
 			lib.Ev.Class("default:change_time present on one side only (not asserted)")
 			lib.Ev.Case("", nil)
 			return
+		}
+		if y != nil && y.ProtoReflect().IsValid() && rapid.IntRange(0, 3).Draw(t, "heldAsDynamic") == 1 {
+			// the same message held by descriptor (what a recorder, gateway or proxy holds) instead of as the generated type:
+			// protobuf equality is defined on descriptor and field values, not on the Go type
+			if b, err := (proto.MarshalOptions{}).Marshal(y); err == nil {
+				d := dynamicpb.NewMessage(y.ProtoReflect().Descriptor())
+				if proto.Unmarshal(b, d) == nil && proto.Equal(d, y) {
+					y = d
+					desc += " y held as dynamicpb"
+					lib.Ev.Class("default:generated type against dynamicpb of the same descriptor")
+				}
+			}
 		}
 		want := proto.Equal(stripChangeTime(x), stripChangeTime(y))
 		got, err := callCmp(cmp.Equal(), x, y)
